@@ -232,8 +232,88 @@ def probe_detached_sends():
     return cases, fails
 
 
+def probe_release_window(seed, cases=12):
+    """Directed schedules (threads, sync engine): every time the draining thread is about to release the processing
+    lock — after its last emptiness test — another thread performs one complete `send()` (it finds the lock taken,
+    leaves its event in the queue and returns). This is repeated k times in a row (k = 1 … 5: the window is hit again
+    by the pass that picked up the previous straggler), with 1–3 events per hit. When every sender has returned,
+    every event must have been processed exactly once, in the order put. (The explorer enumerates schedules with a
+    bounded number of preemptions; this family goes deep along the one line that matters for `nothing stranded`.)"""
+    import random
+    import sys
+    import threading
+    import warnings
+    from statemachine import State, StateMachine
+    import statemachine.engines.sync as sync_mod
+    fails = []
+    fn = sync_mod.__file__
+    try:
+        rel = {i + 1 for i, l in enumerate(open(fn)) if "_processing.release()" in l}
+    except OSError:
+        return ["engines/sync.py has no source"]
+    if not rel:
+        return []     # (no such line: nothing to aim at; the explorer's schedules remain)
+    for i in range(cases):
+        rng = random.Random(f"{seed}:relwin:{i}")
+        k = 1 + i % 5
+        per_hit = rng.randint(1, 3)
+        processed = []
+        with warnings.catch_warnings():
+            warnings.simplefilter("ignore")
+
+            class RW(StateMachine):
+                s = State(initial=True)
+                ev = s.to.itself(internal=True)
+
+                def on_ev(self, tag):
+                    processed.append(tag)
+            sm = RW()
+        hits = [0]
+        sent = ["A"]
+        returned = []
+
+        def straggler(tag):
+            returned.append((tag, sm.send("ev", tag=tag)))
+
+        def local(frame, event, arg):
+            if event == "line" and frame.f_lineno in rel and hits[0] < k:
+                hits[0] += 1
+                sys.settrace(None)
+                for j in range(per_hit):
+                    tag = f"H{hits[0]}.{j}"
+                    sent.append(tag)
+                    th = threading.Thread(target=straggler, args=(tag,))
+                    th.start()
+                    th.join(10)
+                sys.settrace(tracer)
+            return local
+
+        def tracer(frame, event, arg):
+            if event == "call" and frame.f_code.co_filename == fn:
+                return local
+            return None
+        sys.settrace(tracer)
+        try:
+            sm.send("ev", tag="A")
+        finally:
+            sys.settrace(None)
+        if processed != sent:
+            fails.append(f"release window hit {hits[0]} times in a row ({per_hit} event(s) each): sent {sent}, processed "
+                         f"{processed} — stranded: {[t for t in sent if t not in processed]}")
+    return fails
+
+
 def run(ctx):
     lean_obligations(ctx)
+    from props.c03 import probe_burst
+    pb = probe_burst(f"{ctx.seed}:c06", 4 if ctx.tier == "quick" else 30)
+    ctx.coverage["burst_cases"] = 4 if ctx.tier == "quick" else 30
+    if pb:
+        ctx.violation(ctx.write_replay("burst.txt", "\n".join(pb) + "\n"), pb[0][:160])
+    pr = probe_release_window(ctx.seed, 15 if ctx.tier == "quick" else 200)
+    ctx.coverage["release_window_cases"] = 15 if ctx.tier == "quick" else 200
+    if pr:
+        ctx.violation(ctx.write_replay("release_window.txt", "\n".join(pr[:10]) + "\n"), pr[0][:200])
     b = subprocess.run(["lake", "build", "drv_protocol"], cwd=LEAN, capture_output=True, text=True)
     if b.returncode != 0:
         raise RuntimeError("drv_protocol does not build: " + (b.stdout + b.stderr)[-800:])
